@@ -783,6 +783,8 @@ func replayC18(c *Ctx, op string, args []string) bool {
 		c18ReplayHist(c, m)
 	case "auth.hs":
 		c18ReplayHandshake(c, m)
+	case "bot.hs":
+		c18ReplayBotHs(c, m)
 	case "pubkey.verify":
 		var profile *rsa.PublicKey
 		switch m["der"] {
@@ -1071,4 +1073,5 @@ func genC18(c *Ctx) {
 	// histories on one PublicKey value; the server side of the handshake with secrets of every length
 	c18GenHist(c, svcA, svcB, profA, profB)
 	c18GenHandshake(c)
+	c18GenBotHs(c)
 }
